@@ -1830,7 +1830,8 @@ func (s *Store) ExecuteTransaction(transaction *Transaction) error {
 	for k, v := range updateCountsPerDataset {
 		// the datasets that were locked and written to, not whatever goes by these names by now: one of them may
 		// have been renamed, or deleted and created again, while the transaction waited for its locks
-		err = datasets[k].updateDataset(v, nil, holdsCore)
+		// (core.Dataset looks at the entities themselves: a meta-entity may declare public namespaces)
+		err = datasets[k].updateDataset(v, transaction.DatasetEntities[k], holdsCore)
 		if err != nil {
 			return err
 		}
